@@ -26,7 +26,41 @@ def sh(cmd, cwd, env=None, timeout=3600):
     return p.returncode, p.stdout.decode("utf-8", "replace")
 
 
+def checks_only(wt, var, extra):
+    """re-run the checks against an already confirmed seeded change and merge the results into its meta.json"""
+    pid = os.path.basename(wt)
+    dst = os.path.join(HERE, "seeded", "%s-%s" % (pid, var))
+    meta = json.load(open(os.path.join(dst, "meta.json")))
+    sh(["git", "checkout", "--", "selfies"], wt)
+    rc, out = sh(["git", "apply", os.path.join(dst, "patch.diff")], wt)
+    if rc != 0:
+        print("patch does not apply", out)
+        return 2
+    try:
+        todo = [pid] + [c for c in list(meta.get("checks", {})) + extra if c != pid]
+        seen = set()
+        for c in todo:
+            if c in seen:
+                continue
+            seen.add(c)
+            t0 = time.time()
+            rc, out = sh([os.path.join(HERE, "check"), c, "--tier", "quick", "--no-evidence"], HERE,
+                         {"VF_REPO": wt, "VERIF_SEED": os.environ.get("VERIF_SEED", "1")})
+            meta.setdefault("checks", {})[c] = dict(exit=rc, wall_s=round(time.time() - t0, 1),
+                                                    violations=[l[:300] for l in out.splitlines() if l.startswith("violation ")][:4],
+                                                    harness=[l for l in out.splitlines() if "HARNESS" in l][:1])
+    finally:
+        sh(["git", "checkout", "--", "selfies"], wt)
+    meta["caught_by"] = sorted(c for c, v in meta["checks"].items() if v["exit"] == 1)
+    meta["checks_rerun_at"] = time.strftime("%Y-%m-%d %H:%M")
+    json.dump(meta, open(os.path.join(dst, "meta.json"), "w"), indent=1)
+    print(pid + "-" + var, "caught_by", meta["caught_by"], {c: v["exit"] for c, v in meta["checks"].items()})
+    return 0
+
+
 def main():
+    if sys.argv[1] == "--checks-only":
+        return checks_only(sys.argv[2].rstrip("/"), sys.argv[3], sys.argv[4:])
     wt = sys.argv[1].rstrip("/")
     var = sys.argv[2]
     extra = sys.argv[3:]
